@@ -9,11 +9,11 @@ CFGS = {
     "structural": docs.Cfg(transforms=True, groups=True, use=True, nested=True, display=True, translucent_fill=True),
     "clip": docs.Cfg(transforms=True, groups=True, use=True, nested=False, display=False, clip=True, max_leaves=5),
     "stroke": docs.Cfg(transforms=True, groups=True, use=True, nested=False, display=True, stroke=True, lines=True, max_leaves=4),
-    "cascade": docs.Cfg(transforms=True, groups=True, use=True, nested=False, display=True, cascade=True, opacity=True, max_leaves=6),
-    "gradient": docs.Cfg(transforms=True, groups=True, use=True, nested=False, display=True, gradients=True, opacity=True, max_leaves=6),
+    "cascade": docs.Cfg(transforms=True, groups=True, use=True, nested=False, display=True, cascade=True, opacity=True, max_leaves=6, tiny_opacity=True),
+    "gradient": docs.Cfg(transforms=True, groups=True, use=True, nested=False, display=True, gradients=True, opacity=True, max_leaves=6, tiny_opacity=True),
     "gradient-many": docs.Cfg(transforms=True, groups=True, use=False, nested=False, display=False, gradients=True, gradient_bias=0, max_gradients=5, max_leaves=8),
-    "gradient+stroke": docs.Cfg(transforms=True, groups=True, use=True, nested=True, display=True, gradients=True, stroke=True, clip=True, max_leaves=5),
-    "mixed": docs.Cfg(transforms=True, groups=True, use=True, nested=True, display=True, clip=True, stroke=True, lines=True, opacity=True, max_leaves=6),
+    "gradient+stroke": docs.Cfg(transforms=True, groups=True, use=True, nested=True, display=True, gradients=True, stroke=True, clip=True, max_leaves=5, gradient_stroke=True),
+    "mixed": docs.Cfg(transforms=True, groups=True, use=True, nested=True, display=True, clip=True, stroke=True, lines=True, opacity=True, max_leaves=6, tiny_opacity=True),
 }
 
 
